@@ -296,6 +296,17 @@ def check_kernel_1d(ctx, rule, fi, prefix="kernel1d"):
                     facts["nan"].append(("store", tgt, None))
             env.step(step)
 
+    # the per-bin results are final: outside the sweep the result arrays are only allocated (zeros), never replaced
+    reassigned = []
+    for n in ast.walk(fi.node):
+        if isinstance(n, ast.Assign) and isinstance(n.targets[0], ast.Name) and n.targets[0].id in ("frequencies", "errors2"):
+            v = n.value
+            if not (isinstance(v, ast.Call) and call_is(v, "zeros", "zeros_like")):
+                reassigned.append(U(n)[:70])
+        if isinstance(n, ast.AugAssign) and isinstance(n.target, ast.Name) and n.target.id in ("frequencies", "errors2"):
+            reassigned.append(U(n)[:70])
+    ctx.check(not reassigned, rule, f"{prefix}:results-final", "frequencies / errors2 are only allocated and filled bin by bin",
+              "a result array of the sweep is replaced after it was computed: " + "; ".join(reassigned), fi.where)
     W = None
     problems = {k: [] for k in ("interior", "last", "under", "over", "nan", "errors")}
     good = {k: [] for k in problems}
